@@ -7,6 +7,10 @@ under /verif/seeded/<id>/.
 """
 import json, os, re, shutil, subprocess, sys, time
 ENV = dict(os.environ, GOFLAGS="-mod=mod", GOPROXY="off", GOSUMDB="off")
+# detect can run on a snapshot (vp run --with-repo): the repository copy and
+# the /verif copy it works on
+REPO = os.environ.get("VP_RUN_REPO", "/repo")
+VERIF = os.path.dirname(os.path.dirname(os.path.abspath(__file__)))
 
 def sh(cmd, cwd=None, timeout=1800):
     p = subprocess.run(cmd, shell=True, cwd=cwd, env=ENV, stdout=subprocess.PIPE, stderr=subprocess.STDOUT, text=True, timeout=timeout)
@@ -73,28 +77,28 @@ RELATED = {"C01": ["C01", "C02", "C16", "C17"], "C03": ["C03", "C01", "C17", "C1
            "C10": ["C10", "C02", "C17"], "C12": ["C12", "C05"], "C14": ["C14", "C09"], "C15": ["C15"], "C18": ["C18"], "C19": ["C19", "C20"], "C20": ["C20", "C19"]}
 
 def detect(sid, extra=None):
-    out = os.path.join("/verif/seeded", sid)
+    out = os.path.join(VERIF, "seeded", sid)
     meta = json.load(open(os.path.join(out, "meta.json")))
-    if sh("git -C /repo status --porcelain")[1].strip():
+    if sh("git -C %s status --porcelain" % REPO)[1].strip():
         print("repo not clean"); sys.exit(3)
     ids = extra or RELATED.get(meta["property"], [meta["property"]])
-    rc, o = sh("git -C /repo apply %s/patch.diff || git -C /repo apply -3 %s/patch.diff" % (out, out))
+    rc, o = sh("git -C %s apply %s/patch.diff || git -C %s apply -3 %s/patch.diff" % (REPO, out, REPO, out))
     det = {}
     try:
         if rc != 0:
             det["error"] = "patch does not apply: " + o[-300:]
         else:
             for cid in ids:
-                if not os.path.exists("/verif/harness"):
+                if not os.path.exists(os.path.join(VERIF, "harness")):
                     break
                 t0 = time.time()
-                rc, o = sh("/verif/check %s" % cid, cwd="/verif")
+                rc, o = sh("./check %s" % cid, cwd=VERIF)
                 v = [l for l in o.splitlines() if l.startswith("VIOLATION")]
                 msg = [l.strip()[:300] for l in o.splitlines() if "failed after" in l or "--- FAIL" in l][:3]
                 det[cid] = {"exit": rc, "caught": rc == 1 and bool(v), "wall_s": round(time.time() - t0, 1), "first_messages": msg}
     finally:
-        sh("git -C /repo checkout -- . && git -C /repo clean -fdq")
-        sh("cd /verif && git clean -fdq replays/")
+        sh("git -C %s checkout -- . && git -C %s clean -fdq" % (REPO, REPO))
+        sh("rm -rf %s/replays/*" % VERIF)
     meta["detection"] = det
     meta["detected_by"] = [c for c, r in det.items() if isinstance(r, dict) and r.get("caught")]
     json.dump(meta, open(os.path.join(out, "meta.json"), "w"), indent=1)
@@ -106,5 +110,9 @@ if __name__ == "__main__":
             r = confirm(d)
             print(r["seed"], "confirmed" if r.get("confirmed") else "NOT CONFIRMED", {k: r.get(k) for k in ("applies", "builds", "repo_tests_pass_with_patch", "demo_fails_with_patch", "demo_passes_without")}, flush=True)
     else:
-        for s in sys.argv[2:]:
+        ids = sys.argv[2:]
+        if ids == ["ALL"]:
+            ids = sorted(d for d in os.listdir(os.path.join(VERIF, "seeded")) if os.path.exists(os.path.join(VERIF, "seeded", d, "patch.diff")))
+        for s in ids:
             detect(s)
+            sys.stdout.flush()
